@@ -454,6 +454,30 @@ func runPerr(src []byte, mode xparser.Mode, evs []xparser.VerifErrEvent) (res st
 	return b + " raw " + show(raw) + " sorted " + show(sorted)
 }
 
+// replayPerr rebuilds the events of a perr case line.
+func replayPerr(all bool, events string) string {
+	const lines, width = 24, 9
+	src := []byte(strings.Repeat(strings.Repeat(" ", width)+"\n", lines))
+	mode := xparser.Mode(0)
+	if all {
+		mode = xparser.AllErrors
+	}
+	var evs []xparser.VerifErrEvent
+	if events != "-" {
+		for _, e := range strings.Fields(events) {
+			ev := xparser.VerifErrEvent{Kind: e[0]}
+			for _, t := range strings.Split(e[1:], ";") {
+				var line, col, m int
+				fmt.Sscanf(t, "%d:%d:%d", &line, &col, &m)
+				ev.Offset = append(ev.Offset, (line-1)*(width+1)+col-1)
+				ev.Msg = append(ev.Msg, fmt.Sprintf("m%02d", m))
+			}
+			evs = append(evs, ev)
+		}
+	}
+	return runPerr(src, mode, evs)
+}
+
 var advOps = []string{"n", "s", "d", "e"}
 
 func advCase(src []byte, r *vh.Rand) {
@@ -596,10 +620,12 @@ func main() {
 
 	if f.Replay != "" {
 		fs := strings.Split(f.Replay, "\t")
-		if len(fs) == 1 {
+		if len(fs) < 3 { // oracle.txt lines (and replays made from them) have blanks instead of tabs
 			fs = strings.Fields(f.Replay)
 		}
 		switch {
+		case fs[0] == "perr" && len(fs) >= 3:
+			out.Case(f.Replay, replayPerr(fs[1] == "1", fs[2]), true)
 		case len(fs) >= 3 && fs[0] == "parse":
 			src, _ := vh.UnHex(fs[2])
 			for _, e := range entries {
